@@ -86,6 +86,10 @@ static void check_class(const char *sub, const char *d, size_t n) {
             int code = EEAV_TLD_NOT_ASSIGNED + exp - TLD_TYPE_NOT_ASSIGNED;
             if (ra != 1 || ea != EEAV_NO_ERROR || rn != 0 || en != code)
                 mc_violation(sub, "eav:class-not-reflected-by-object-api", "", cfg, d, n, "class %d: allow-all ret=%d err=%d, allow-none ret=%d err=%d (want 1/0 and 0/%d)", exp, ra, ea, rn, en, code);
+            /* ... and the refusal names that class: the message is the IANA type of the row ('-' or ' ' between words) followed by " TLD" */
+            { const char *ms = eav_errstr(&NONE[m]); char want[48]; snprintf(want, sizeof want, "%s TLD", rt_name[exp]); int okm = ms && strlen(ms) == strlen(want);
+              for (size_t i = 0; okm && want[i]; i++) if (ms[i] != want[i] && !(want[i] == '-' && ms[i] == ' ')) okm = 0;
+              if (!okm) mc_violation(sub, "eav:refusal-names-another-class", "", cfg, d, n, "class %d refused by an empty mask: eav_errstr says \"%s\", the row's type is %s", exp, ms ? ms : "(null)", rt_name[exp]); }
         } else if (ra != 0 || rn != 0 || ea != -exp || en != -exp)
             mc_violation(sub, "eav:negative-result-not-reflected-by-object-api", "", cfg, d, n, "expected error %d: allow-all ret=%d err=%d, allow-none ret=%d err=%d", -exp, ra, ea, rn, en);
     }
@@ -215,6 +219,9 @@ static void rows_shard(long shard, void *arg) {
         for (size_t p = 0; p < n; p++) {
             memcpy(x, t, p); memcpy(x + p, t + p + 1, n - p - 1); if (n > 1) check_class("near-deletion", d, pl + n - 1);
             for (const char *a = AL; *a; a++) { memcpy(x, t, n); x[p] = *a; check_class("near-substitution", d, pl + n); }
+            /* upper-case letters too: a hand-written case-insensitive comparison that folds by arithmetic (|0x20, +-32) also "folds" a digit or the
+             * hyphen onto a letter of the other case ('1' ~ 'Q', '-' ~ 'M') */
+            if (pi == 0) for (int a = 'A'; a <= 'Z'; a++) { memcpy(x, t, n); x[p] = (char)a; check_class("near-substitution", d, pl + n); }
         }
         for (size_t p = 0; p <= n; p++) for (const char *a = AL; *a; a++) { memcpy(x, t, p); x[p] = *a; memcpy(x + p + 1, t + p, n - p); check_class("near-insertion", d, pl + n + 1); }
     }
